@@ -125,6 +125,22 @@ static void sec_legendre(Ctx& c, uint64_t) {
     if (c.want_sample(cls)) c.sample(cls, jobj(O));
     if (!(L.k2() == O.k2 && L.kp2() == O.kp2 && L.alpha2() == O.a2 && L.alphap2() == O.ap2)) VIOL(c, "law:C15/elliptic/inspectors", cls, jobj(O));
   }
+  // (sn,cn,dn) overloads at the exact quadrant point cn = +-0 (phi = +-pi/2 exactly; cos(phi) of a double never vanishes, so the random
+  // amplitudes below cannot reach the cn2 == 0 fall-back of E, D, Pi, G, H -- shown as never executed by the reach monitor):
+  // the value is +-the complete integral
+  if (r.below(4) == 0) {
+    double sn = r.coin() ? 1.0 : -1.0, cn = r.coin() ? 0.0 : -0.0, dn = L.Delta(sn, cn);
+    double got3[6] = {L.F(sn, cn, dn), L.E(sn, cn, dn), L.D(sn, cn, dn), L.Pi(sn, cn, dn), L.G(sn, cn, dn), L.H(sn, cn, dn)};
+    std::string cls = "incomplete/" + O.cls + "/sncndn-at-exact-quarter-period"; c.count(cls, vh::hmix(vh::hmix(vh::hmix(103, O.k2), O.a2), sn + cn));
+    for (int i = 0; i < 6; ++i) {
+      if (R.divergent[i] || isinfq(R.C[i])) continue;
+      Regime rg_(legendre_regime(O, i));
+      double cond = 1; if (i >= 3 && !isinfq(R.C[0]) && R.C[i] != 0) cond = (double)((fabsq(R.C[0]) + fabsq(R.C[i] - R.C[0])) / fabsq(R.C[i]));
+      double e = relerr(got3[i], (q128)sn * R.C[i]);
+      c.obs(std::string("incomplete ") + FN[i] + "(sn=+-1,cn=+-0,dn) rel err / cancellation conditioning [eps]", e / cond);
+      if (!(e <= K_ELL * cond)) VIOL(c, std::string("oracle:C15/elliptic/incomplete-sncndn-quarter-period/") + FN[i], cls, J(jobj(O)).str("fn", FN[i]).f("sn", sn).f("cn", cn).f("dn", dn).f("got", got3[i]).str("want", ref::qstr((q128)sn * R.C[i])).f("err_eps", e));
+    }
+  }
   for (int rep = 0; rep < 6; ++rep) {
     const char* pc; double phi = gen_phi(r, pc);
     q128 n = roundq((q128)phi / M_PIq); bool beyond = fabsq((q128)phi) > M_PIq / 2;
